@@ -263,3 +263,5 @@ def run(F, S, R, tier):
                 else:
                     R.bad("sibling/stage-map/" + var, "TxStatus::%s inserts with %s, expected %s" % (var, cs, fn), [se.where(tgt)])
     R.guard("sibling/stage-map", stage)
+    import common as _common
+    _common.effects(R, F, ['pool'])
